@@ -1077,7 +1077,8 @@ def _accounting_nodes(g: CFG, counter_hint: Optional[str] = None):
     out = []
     for nd in g.nodes:
         st = nd.stmt
-        if nd.kind == "stmt" and isinstance(st, ast.AugAssign) and isinstance(st.op, ast.Add) and isinstance(st.target, ast.Name):
+        if nd.kind == "stmt" and isinstance(st, ast.AugAssign) and isinstance(st.op, (ast.Add, ast.Sub)) and isinstance(st.target, ast.Name):
+            # read += len(parsed.raw) counts up towards size; remaining -= len(parsed.raw) counts size down towards 0
             v = ast.unparse(st.value)
             if v.startswith("len(") and v.endswith(".raw)"):
                 out.append(nd)
@@ -1095,9 +1096,14 @@ def _prune_size_none(g: CFG, size: str) -> Set[Tuple[int, str]]:
     return dead
 
 
+def _load_fn(mod):
+    from ..expand import propagate_pure_flags
+    return propagate_pure_flags(mod.func("Message.load"))
+
+
 def rule_S2(ctx, rule: str = "S2") -> None:
     mod = ctx.repo.mod(M_INIT)
-    load = mod.func("Message.load")
+    load = _load_fn(mod)
     size = _size_param(load)
     g = CFG(load, implicit_exc=False)
     heads = _load_loop_nodes(g, load)
@@ -1150,7 +1156,7 @@ def rule_S2(ctx, rule: str = "S2") -> None:
 
 def rule_S1(ctx, rule: str = "S1") -> None:
     mod = ctx.repo.mod(M_INIT)
-    load = mod.func("Message.load")
+    load = _load_fn(mod)
     size = _size_param(load)
     g = CFG(load, implicit_exc=False)
     heads = _load_loop_nodes(g, load)
@@ -1159,6 +1165,10 @@ def rule_S1(ctx, rule: str = "S1") -> None:
         ctx.inconclusive(rule, "load:ordering-invariant", "field loop or accounting statement not found", mod.loc(load))
         return
     counter = acc[0].stmt.target.id  # type: ignore[union-attr]
+    down = isinstance(acc[0].stmt.op, ast.Sub)  # type: ignore[union-attr]
+    if any(isinstance(a.stmt.op, ast.Sub) != down or a.stmt.target.id != counter for a in acc):  # type: ignore[union-attr]
+        ctx.inconclusive(rule, "load:ordering-invariant", "accounting statements disagree on the counter or its direction", mod.loc(load))
+        return
     dead = _prune_size_none(g, size)
     LT, EQ, GT = "<", "=", ">"
     ALL = frozenset((LT, EQ, GT))
@@ -1171,8 +1181,16 @@ def rule_S1(ctx, rule: str = "S1") -> None:
         st = nd.stmt
         if nd.kind == "stmt" and isinstance(st, ast.Assign) and len(st.targets) == 1 and isinstance(st.targets[0], ast.Name):
             if st.targets[0].id == counter:
-                if isinstance(st.value, ast.Constant) and st.value.value == 0:
+                if not down and isinstance(st.value, ast.Constant) and st.value.value == 0:
                     return frozenset((LT, EQ)), True       # size >= 0 (a varint or a caller-supplied length)
+                if down:
+                    # remaining = size  /  size if size is not None else <anything>: nothing read yet, size >= 0
+                    v = st.value
+                    if isinstance(v, ast.IfExp):
+                        tv = _is_size_none_test(v.test, size)
+                        v = v.body if tv is True else (v.orelse if tv is False else v)
+                    if isinstance(v, ast.Name) and v.id == size:
+                        return frozenset((LT, EQ)), True
                 if ast.unparse(st.value) == counter:
                     return s
                 return ALL, False
@@ -1196,8 +1214,9 @@ def rule_S1(ctx, rule: str = "S1") -> None:
     def _refine_sym(t: Sym, s: State, want: bool) -> Optional[State]:
         """states compatible with term t evaluating to `want` (size is not None throughout)"""
         rel, zero = s
-        while t[0] == "op" and t[1] == "not":
-            want = not want
+        while t[0] == "op" and t[1] in ("not", "truth"):
+            if t[1] == "not":
+                want = not want
             t = t[2]
         r, z = N(counter), N(size)
         if t == ("op", "is", z, C(None)):
@@ -1218,6 +1237,26 @@ def rule_S1(ctx, rule: str = "S1") -> None:
                 return None
             return frozenset().union(*[o[0] for o in outs]), all(o[1] for o in outs)
         keep = None
+        if down:
+            # the counter holds size - read: read < size <=> counter > 0
+            if t == ("op", "==", r, C(0)) or t == ("op", "==", C(0), r):
+                keep = {EQ} if want else {LT, GT}
+            elif t == ("op", "<", C(0), r):
+                keep = {LT} if want else {EQ, GT}
+            elif t == ("op", "<", r, C(0)):
+                keep = {GT} if want else {LT, EQ}
+            elif t == r:                                # truthiness of the remaining count
+                keep = {LT, GT} if want else {EQ}
+            elif zero and t == ("op", "==", z, C(0)):
+                keep = {EQ} if want else {LT}
+            elif zero and t == z:
+                keep = {LT} if want else {EQ}
+            elif zero and t == ("op", "<", C(0), z):
+                keep = {LT} if want else {EQ}
+            if keep is None:
+                return s
+            nr = frozenset(rel & keep)
+            return (nr, zero) if nr else None
         if t == ("op", "==", r, z) or t == ("op", "==", z, r):
             keep = {EQ} if want else {LT, GT}
         elif t == ("op", "<", r, z):
